@@ -8,10 +8,15 @@
   * `replacement`       "the container is replaced by a freshly built content": the writes, the order of clear / reads / inserts
   * `filtered`          an insertion site that does not execute for every element (comprehension filter, `if`, continue / break)
   * `ordered_source`    grammar of paths that denote "the i-th key / the i-th value of a dict, in the dict's own order"
+  * `_desugar`          local re-spelling of the flattened function (before and after the inliner): operator-module callables, lambdas,
+                        partial, getattr / setattr with literal names, map / filter, loops over constant tables, next()-dispatch ...
+  * `cancel_path`       put into a tuple / record slot or an intermediate container and selected again = the value itself
 """
 from __future__ import annotations
 
 import ast
+import copy
+import itertools
 from typing import Dict, Iterable, List, Optional, Sequence, Set, Tuple
 
 from .. import cfg as C
@@ -68,71 +73,1010 @@ def anchor(repo: Repo, spec: str, fields: Iterable[str] = ()) -> FuncInfo:
                 if any(isinstance(n, ast.Attribute) and n.attr in fields and isinstance(n.value, ast.Name) and n.value.id == raw.self_name
                        for n in ast.walk(a)):
                     also.add(name)
-    return _desugar(L.fn(repo, spec, also=also or None))
+    from ..inline import flatten
+    cur = _desugar(repo, raw)               # consumers such as map(f, self._helper()) become loops the inliner can expand
+    for _ in range(3):
+        flat = flatten(repo, cur, 4, also or None)
+        if cur is not raw:
+            flat.flat_of = raw
+        out = _desugar(repo, flat)
+        if out is flat or not any(callee_name(c).startswith("_") and not callee_name(c).startswith("__") for c in L.calls_in(out.node)):
+            break
+        cur = out
+    return _desugar(repo, out, final=True)
 
 
-class _MapLambda(ast.NodeTransformer):
-    """map(lambda x: E, IT) -> (E for x in IT);  filter(lambda x: C, IT) -> (x for x in IT if C): the provenance engine does not look
-    into lambdas, a generator expression says the same"""
+# --------------------------------------------------------------------------- local desugaring
+# The provenance engine does not look into lambdas, operator-module callables, dynamic attribute access with names taken from a
+# constant table, or loops over constant tables.  The rewrites below say the same thing in the plain forms the engine understands;
+# they are applied to the flattened anchor only (never to the repository) and only change HOW the code is spelled:
+#   getattr(X, "a")                         -> X.a
+#   attrgetter("a", "b.c")(X)               -> (X.a, X.b.c)      itemgetter(k)(X) -> X[k]      methodcaller("m", *a)(X) -> X.m(*a)
+#   (lambda a, b: E)(x, y)                  -> E[a := x, b := y]  (also through a local / module-level name bound once to the callable)
+#   Cls.method(obj, *a)                     -> obj.method(*a)     (Cls is a class of the repository that has the method)
+#   map(F, IT) / filter(F, IT) / starmap    -> generator expressions
+#   for v in <constant table>: BODY         -> BODY[v := e1]; BODY[v := e2]; ..   (tests made of literals are decided)
+#   [E for v in <constant table>]           -> [E[v := e1], E[v := e2], ..]        (more generators: chain of the instances)
+#   chain.from_iterable((a, b))             -> chain(a, b)
+OPERATOR_FACTORIES = ("attrgetter", "itemgetter", "methodcaller")
+MAX_UNROLL = 8
+_STR_METHODS = ("startswith", "endswith", "lower", "upper", "strip", "lstrip", "rstrip", "replace", "removeprefix", "removesuffix",
+                "isidentifier", "title", "capitalize", "count", "find", "isupper", "islower")
 
-    def __init__(self):
-        self.changed = False
 
-    def visit_Call(self, n):
-        self.generic_visit(n)
-        if isinstance(n.func, ast.Name) and n.func.id in ("map", "filter") and len(n.args) == 2 and not n.keywords and isinstance(n.args[0], ast.Lambda):
-            lam = n.args[0]
-            a = lam.args
-            if len(a.args) == 1 and not (a.posonlyargs or a.kwonlyargs or a.vararg or a.kwarg or a.defaults):
-                self.changed = True
-                tgt = ast.Name(id=a.args[0].arg, ctx=ast.Store())
-                if n.func.id == "map":
-                    gen = ast.GeneratorExp(elt=lam.body, generators=[ast.comprehension(target=tgt, iter=n.args[1], ifs=[], is_async=0)])
-                else:
-                    gen = ast.GeneratorExp(elt=ast.Name(id=a.args[0].arg, ctx=ast.Load()),
-                                           generators=[ast.comprehension(target=tgt, iter=n.args[1], ifs=[lam.body], is_async=0)])
-                return ast.fix_missing_locations(ast.copy_location(gen, n))
+class _NotConst(Exception):
+    pass
+
+
+def _ev(e: ast.AST):
+    if isinstance(e, ast.Constant):
+        return e.value
+    if isinstance(e, (ast.Tuple, ast.List)):
+        return tuple(_ev(x) for x in e.elts)
+    if isinstance(e, ast.Set):
+        return frozenset(_ev(x) for x in e.elts)
+    if isinstance(e, ast.UnaryOp) and isinstance(e.op, ast.Not):
+        return not _ev(e.operand)
+    if isinstance(e, ast.BoolOp):
+        val = None
+        for x in e.values:
+            val = _ev(x)
+            if isinstance(e.op, ast.And) and not val:
+                return val
+            if isinstance(e.op, ast.Or) and val:
+                return val
+        return val
+    if isinstance(e, ast.Compare):
+        left = _ev(e.left)
+        for op, c in zip(e.ops, e.comparators):
+            right = _ev(c)
+            if isinstance(op, ast.Eq):
+                r = left == right
+            elif isinstance(op, ast.NotEq):
+                r = left != right
+            elif isinstance(op, ast.In):
+                r = left in right
+            elif isinstance(op, ast.NotIn):
+                r = left not in right
+            elif isinstance(op, ast.Is) and (left is None or right is None):
+                r = left is right
+            elif isinstance(op, ast.IsNot) and (left is None or right is None):
+                r = left is not right
+            elif isinstance(op, (ast.Lt, ast.LtE, ast.Gt, ast.GtE)):
+                r = {ast.Lt: left < right, ast.LtE: left <= right, ast.Gt: left > right, ast.GtE: left >= right}[type(op)]
+            else:
+                raise _NotConst()
+            if not r:
+                return False
+            left = right
+        return True
+    if isinstance(e, ast.BinOp) and isinstance(e.op, (ast.Add, ast.Mod)):
+        left, right = _ev(e.left), _ev(e.right)
+        if isinstance(left, str) and (isinstance(e.op, ast.Mod) or isinstance(right, str)):
+            return left + right if isinstance(e.op, ast.Add) else left % right
+        if isinstance(left, tuple) and isinstance(right, tuple) and isinstance(e.op, ast.Add):
+            return left + right
+        raise _NotConst()
+    if isinstance(e, ast.JoinedStr):
+        parts = []
+        for x in e.values:
+            if isinstance(x, ast.FormattedValue):
+                if x.conversion != -1 or x.format_spec is not None:
+                    raise _NotConst()
+                parts.append(str(_ev(x.value)))
+            else:
+                parts.append(str(_ev(x)))
+        return "".join(parts)
+    if isinstance(e, ast.Call) and isinstance(e.func, ast.Attribute) and e.func.attr == "format" and all(k.arg for k in e.keywords):
+        recv = _ev(e.func.value)
+        if isinstance(recv, str):
+            return recv.format(*[_ev(a) for a in e.args], **{k.arg: _ev(k.value) for k in e.keywords})
+    if isinstance(e, ast.Call) and not e.keywords:
+        if isinstance(e.func, ast.Attribute) and e.func.attr in _STR_METHODS:
+            recv = _ev(e.func.value)
+            if isinstance(recv, str):
+                return getattr(recv, e.func.attr)(*[_ev(a) for a in e.args])
+        if isinstance(e.func, ast.Name) and e.func.id in ("len", "bool", "str") and len(e.args) == 1:
+            return {"len": len, "bool": bool, "str": str}[e.func.id](_ev(e.args[0]))
+    raise _NotConst()
+
+
+def const_eval(e: ast.AST):
+    """(True, value) when the expression is built from literals only"""
+    try:
+        return True, _ev(e)
+    except Exception:
+        return False, None
+
+
+def _relocate(new: ast.AST, at: ast.AST) -> ast.AST:
+    for x in ast.walk(new):
+        if hasattr(at, "lineno"):
+            ast.copy_location(x, at)
+    return new
+
+
+class _Subst(ast.NodeTransformer):
+    """replace loads of the given names by (copies of) expressions; the copies are marked `_subst`"""
+
+    def __init__(self, mapping: Dict[str, ast.AST]):
+        self.mapping = mapping
+
+    def visit_Name(self, n):
+        if isinstance(n.ctx, ast.Load) and n.id in self.mapping:
+            new = _relocate(copy.deepcopy(self.mapping[n.id]), n)
+            new._subst = True
+            return new
+        return n
+
+    def visit_Lambda(self, n):
+        a = n.args
+        shadow = {x.arg for x in a.posonlyargs + a.args + a.kwonlyargs} | {x.arg for x in (a.vararg, a.kwarg) if x is not None}
+        rest = {k: v_ for k, v_ in self.mapping.items() if k not in shadow}
+        if rest:
+            n.body = _Subst(rest).visit(n.body)
         return n
 
 
-_desugared: Dict[int, FuncInfo] = {}
+class _FoldTests(ast.NodeTransformer):
+    """decide the tests that consist of literals only (after a loop variable was replaced by the entries of a constant table)"""
+
+    def visit_If(self, n):
+        self.generic_visit(n)
+        if getattr(n, "_inline_block", False):
+            return n
+        ok, val = const_eval(n.test)
+        if ok:
+            return (n.body if val else n.orelse) or [ast.copy_location(ast.Pass(), n)]
+        return n
+
+    def visit_IfExp(self, n):
+        self.generic_visit(n)
+        ok, val = const_eval(n.test)
+        if ok:
+            return n.body if val else n.orelse
+        return n
+
+    def visit_BoolOp(self, n):
+        self.generic_visit(n)
+        keep = []
+        for i, x in enumerate(n.values):
+            ok, val = const_eval(x)
+            if not ok:
+                keep.append(x)
+                continue
+            neutral = bool(val) if isinstance(n.op, ast.And) else not bool(val)
+            if neutral and i < len(n.values) - 1:
+                continue            # `True and X` / `False or X`: the operand decides nothing
+            keep.append(x)
+            if not neutral:
+                break               # `False and X` / `True or X`: the rest is not evaluated
+        if len(keep) == 1:
+            return keep[0]
+        n.values = keep
+        return n
+
+    def visit_comprehension(self, n):
+        self.generic_visit(n)
+        n.ifs = [t for t in n.ifs if const_eval(t) != (True, True)]
+        return n
 
 
-def _desugar(f: FuncInfo) -> FuncInfo:
-    k = id(f.node)
+def _undecided_test_on_subst(stmts: List[ast.AST]) -> bool:
+    """a test that still depends on a literal taken from the table (it could not be decided)"""
+    def tainted(t):
+        return any(getattr(x, "_subst", False) and isinstance(x, (ast.Constant, ast.Tuple, ast.List)) for x in ast.walk(t))
+    for s in stmts:
+        for x in ast.walk(s):
+            if isinstance(x, (ast.If, ast.IfExp, ast.While)) and not getattr(x, "_inline_block", False) and tainted(x.test):
+                return True
+            if isinstance(x, ast.comprehension) and any(tainted(t) for t in x.ifs):
+                return True
+            if isinstance(x, ast.Assert) and tainted(x.test):
+                return True
+    return False
+
+
+def _own_jumps(body: List[ast.stmt], kinds=(ast.Break, ast.Continue)) -> bool:
+    """break / continue that belong to the loop with this body"""
+    for s in body:
+        if isinstance(s, kinds):
+            return True
+        if isinstance(s, (ast.For, ast.While)):
+            if _own_jumps(s.orelse, kinds):
+                return True
+            continue
+        for fld in ("body", "orelse", "finalbody"):
+            sub = getattr(s, fld, None)
+            if isinstance(sub, list) and sub and isinstance(sub[0], ast.stmt) and _own_jumps(sub, kinds):
+                return True
+        if isinstance(s, ast.Try) and any(_own_jumps(h.body, kinds) for h in s.handlers):
+            return True
+    return False
+
+
+def _without_continue(stmts: List[ast.stmt], after: List[ast.stmt]) -> Optional[List[ast.stmt]]:
+    """one iteration of a loop body as straight-line code: `continue` ends it, the statements after an `if` that may `continue`
+    move into its branches.  None when the shape is not understood (break, continue inside try / with)"""
+    out: List[ast.stmt] = []
+    for i, s in enumerate(stmts):
+        if isinstance(s, ast.Continue):
+            return out or [ast.copy_location(ast.Pass(), s)]
+        if isinstance(s, ast.Break):
+            return None
+        if isinstance(s, (ast.For, ast.While)):
+            if _own_jumps(s.orelse):
+                return None
+            out.append(s)
+            continue
+        if _own_jumps([s]):
+            if not isinstance(s, ast.If):
+                return None
+            rest = _without_continue(stmts[i + 1:], after)
+            if rest is None:
+                return None
+            body = _without_continue(s.body, rest)
+            orelse = _without_continue(s.orelse, copy.deepcopy(rest))
+            if body is None or orelse is None:
+                return None
+            s.body, s.orelse = body or [ast.copy_location(ast.Pass(), s)], orelse
+            out.append(s)
+            return out
+        out.append(s)
+    return out + list(after)
+
+
+_fresh_counter = itertools.count(1)
+
+
+class _Desugar(ast.NodeTransformer):
+    def __init__(self, repo: Repo, f: FuncInfo, final: bool = False):
+        self.repo, self.f = repo, f
+        self.final = final          # the last pass (after the inliner): set displays / comprehensions are spelled set(..)
+        self.changed = False
+        self.mods = [f.mod.name]
+        for qn in getattr(f, "inlined", []) or []:
+            g = repo.funcs.get(qn) if hasattr(repo, "funcs") else None
+            if g is not None and g.mod.name not in self.mods:
+                self.mods.append(g.mod.name)
+        # how often every local name is bound
+        self.bound: Dict[str, int] = {}
+        self.comp_bound: Dict[str, int] = {}        # variables of comprehensions live in their own scope
+        self.comp_scope: List[Set[str]] = []
+        comp_targets = {id(x) for c in ast.walk(f.node) if isinstance(c, ast.comprehension) for x in ast.walk(c.target)}
+        for n in ast.walk(f.node):
+            if isinstance(n, ast.Name) and isinstance(n.ctx, (ast.Store, ast.Del)):
+                d = self.comp_bound if id(n) in comp_targets else self.bound
+                d[n.id] = d.get(n.id, 0) + 1
+            elif isinstance(n, ast.arg):
+                self.bound[n.arg] = self.bound.get(n.arg, 0) + 1
+        # local names bound exactly once to a callable expression / a constant table
+        self.local_once: Dict[str, ast.AST] = {}
+        for n in ast.walk(f.node):
+            tgt = None
+            if isinstance(n, ast.Assign) and len(n.targets) == 1 and isinstance(n.targets[0], ast.Name):
+                tgt = n.targets[0].id
+            elif isinstance(n, ast.AnnAssign) and isinstance(n.target, ast.Name) and n.value is not None:
+                tgt = n.target.id
+            if tgt is not None and self.bound.get(tgt) == 1:
+                self.local_once[tgt] = n.value
+
+    # ---------------------------------------------------------------- resolution of names
+    def fresh(self) -> str:
+        return f"ds__m{next(_fresh_counter)}"
+
+    def _local(self, name: str) -> Optional[ast.AST]:
+        """the value of a local name that is bound exactly once (and not shadowed by a comprehension variable here)"""
+        if any(name in s for s in self.comp_scope):
+            return None
+        return self.local_once.get(name)
+
+    def _global(self, name: str) -> Optional[ast.AST]:
+        if name in self.bound or any(name in s for s in self.comp_scope):
+            return None
+        for m in self.mods:
+            r = self.repo.lookup(m, name)
+            if r and r[0] == "const":
+                return r[1]
+            if r:
+                return None
+        hits = [m.defs[name][1] for m in self.repo.mods.values() if name in m.defs and m.defs[name][0] == "const"]
+        return hits[0] if len(hits) == 1 else None
+
+    def _closed(self, e: ast.AST) -> bool:
+        """no local variable of the analysed function occurs in the expression"""
+        inner = set()
+        for x in ast.walk(e):
+            if isinstance(x, ast.arg):
+                inner.add(x.arg)
+            elif isinstance(x, ast.Name) and isinstance(x.ctx, ast.Store):
+                inner.add(x.id)
+        return not any(isinstance(x, ast.Name) and (x.id in self.bound or x.id in self.comp_bound) and x.id not in inner for x in ast.walk(e))
+
+    def _callable_expr(self, e: ast.AST, depth: int = 0) -> Optional[ast.AST]:
+        """the lambda / operator-module callable / bound method a name stands for"""
+        if depth > 3:
+            return None
+        if isinstance(e, ast.Name):
+            v = self._local(e.id)
+            local = v is not None
+            if v is None:
+                v = self._global(e.id)
+            if v is None:
+                return None
+            if isinstance(v, ast.Name):
+                return self._callable_expr(v, depth + 1)
+            if isinstance(v, ast.Lambda):
+                return v
+            if isinstance(v, ast.Call) and _last_name(v.func) in OPERATOR_FACTORIES + ("partial",):
+                return v
+            if local and isinstance(v, ast.IfExp):
+                return v            # renamer = A if <test> else B
+            if local and isinstance(v, ast.Attribute) and isinstance(getattr(v, "ctx", None), ast.Load) and self._stable_receiver(v.value):
+                return v            # lookup = mapping.__getitem__ / get = mapping.get
+        return None
+
+    def _stable_receiver(self, e: ast.AST) -> bool:
+        """a parameter / self / attribute chain on them (the bound method is the same object at the call)"""
+        while isinstance(e, ast.Attribute):
+            e = e.value
+        return isinstance(e, ast.Name) and (e.id in self.f.params or self.bound.get(e.id, 0) <= 1)
+
+    def _table(self, e: ast.AST, depth: int = 0) -> Optional[List[ast.AST]]:
+        """the entries of a constant table: a tuple / list display (or dict display .items() / .keys() / .values()) written in place,
+        bound once to a local name or defined at module level, whose entries do not mention local variables"""
+        if depth > 3:
+            return None
+        if isinstance(e, ast.Name):
+            v = self._local(e.id)
+            if v is not None and not isinstance(v, (ast.Tuple, ast.Name)):
+                return None         # a local list / dict may be changed before it is iterated
+            if v is None:
+                v = self._global(e.id)
+            return self._table(v, depth + 1) if v is not None else None
+        if isinstance(e, ast.Call) and isinstance(e.func, ast.Name) and e.func.id in ("tuple", "list", "iter", "sorted", "reversed", "set", "frozenset") and len(e.args) == 1 \
+                and not e.keywords:
+            return self._table(e.args[0], depth + 1)
+        if isinstance(e, ast.Call) and isinstance(e.func, ast.Attribute) and e.func.attr in ("items", "keys", "values") and not e.args:
+            d = e.func.value
+            if isinstance(d, ast.Name):
+                d = self._global(d.id)
+            if isinstance(d, ast.Dict) and all(k is not None for k in d.keys):
+                if e.func.attr == "items":
+                    ents = [ast.Tuple(elts=[k, v_], ctx=ast.Load()) for k, v_ in zip(d.keys, d.values)]
+                else:
+                    ents = list(d.keys if e.func.attr == "keys" else d.values)
+                return ents if 0 < len(ents) <= MAX_UNROLL and all(self._closed(x) for x in ents) else None
+            return None
+        if isinstance(e, ast.Dict) and all(k is not None for k in e.keys):
+            ents = list(e.keys)
+            return ents if 0 < len(ents) <= MAX_UNROLL and all(self._closed(x) for x in ents) else None
+        if isinstance(e, (ast.Tuple, ast.List)) and 0 < len(e.elts) <= MAX_UNROLL:
+            if any(isinstance(x, ast.Starred) for x in e.elts):
+                return None
+            if not all(self._closed(x) for x in e.elts):
+                return None
+            # only tables of literals / callables / classes: a display of ordinary run-time values is not a table
+            if all(self._is_table_entry(x) for x in e.elts):
+                return list(e.elts)
+        return None
+
+    def _is_table_entry(self, x: ast.AST) -> bool:
+        if isinstance(x, ast.Constant):
+            return isinstance(x.value, str)
+        if isinstance(x, (ast.Tuple, ast.List)):
+            return bool(x.elts) and all(self._is_table_entry(y) or isinstance(y, ast.Constant) for y in x.elts)
+        if isinstance(x, ast.Lambda):
+            return True
+        if isinstance(x, ast.Call):
+            return _last_name(x.func) in OPERATOR_FACTORIES
+        if isinstance(x, ast.Name):
+            return x.id not in self.bound and x.id not in self.comp_bound        # a class / function / constant of the module
+        if isinstance(x, ast.Attribute):
+            return isinstance(x.value, ast.Name) and x.value.id in self.repo.classes
+        return False
+
+    def _bindings(self, target: ast.AST, entry: ast.AST) -> Optional[Dict[str, ast.AST]]:
+        if isinstance(target, ast.Name):
+            return {target.id: entry}
+        if isinstance(target, (ast.Tuple, ast.List)) and isinstance(entry, (ast.Tuple, ast.List)) and len(target.elts) == len(entry.elts):
+            out: Dict[str, ast.AST] = {}
+            for t, x in zip(target.elts, entry.elts):
+                b = self._bindings(t, x)
+                if b is None:
+                    return None
+                out.update(b)
+            return out
+        return None
+
+    # ---------------------------------------------------------------- calls
+    def _apply(self, fn: ast.AST, args: List[ast.AST], at: ast.AST) -> Optional[ast.AST]:
+        """the expression `fn(*args)` stands for, when fn is a lambda or an operator-module callable"""
+        if isinstance(fn, ast.Lambda):
+            a = fn.args
+            if a.posonlyargs or a.kwonlyargs or a.vararg or a.kwarg or len(a.args) != len(args) or any(isinstance(x, ast.Starred) for x in args):
+                return None
+            body = copy.deepcopy(fn.body)
+            body = _Subst({p.arg: x for p, x in zip(a.args, args)}).visit(body)
+            for x in ast.walk(body):
+                if hasattr(x, "_subst"):
+                    del x._subst
+            return self.visit(_relocate(body, at))
+        if isinstance(fn, ast.Call) and _last_name(fn.func) in OPERATOR_FACTORIES and len(args) == 1 and not isinstance(args[0], ast.Starred):
+            kind, obj = _last_name(fn.func), args[0]
+            if kind == "attrgetter" and fn.args and not fn.keywords and all(isinstance(x, ast.Constant) and isinstance(x.value, str) for x in fn.args):
+                outs = []
+                for x in fn.args:
+                    cur = copy.deepcopy(obj)
+                    for part in x.value.split("."):
+                        if not part.isidentifier():
+                            return None
+                        cur = ast.Attribute(value=cur, attr=part, ctx=ast.Load())
+                    outs.append(cur)
+                return outs[0] if len(outs) == 1 else ast.Tuple(elts=outs, ctx=ast.Load())
+            if kind == "itemgetter" and fn.args and not fn.keywords:
+                outs = [ast.Subscript(value=copy.deepcopy(obj), slice=copy.deepcopy(x), ctx=ast.Load()) for x in fn.args]
+                return outs[0] if len(outs) == 1 else ast.Tuple(elts=outs, ctx=ast.Load())
+            if kind == "methodcaller" and fn.args and isinstance(fn.args[0], ast.Constant) and isinstance(fn.args[0].value, str) \
+                    and fn.args[0].value.isidentifier():
+                return ast.Call(func=ast.Attribute(value=copy.deepcopy(obj), attr=fn.args[0].value, ctx=ast.Load()),
+                                args=[copy.deepcopy(x) for x in fn.args[1:]], keywords=[copy.deepcopy(k) for k in fn.keywords])
+        return None
+
+    def _call_of(self, fn: ast.AST, args: List[ast.AST], at: ast.AST) -> ast.AST:
+        """fn(*args), desugared when fn is understood"""
+        real = self._callable_expr(fn) if isinstance(fn, ast.Name) else fn
+        if isinstance(real, ast.IfExp):
+            return ast.IfExp(test=copy.deepcopy(real.test), body=self._call_of(copy.deepcopy(real.body), [copy.deepcopy(x) for x in args], at),
+                             orelse=self._call_of(copy.deepcopy(real.orelse), [copy.deepcopy(x) for x in args], at))
+        if real is not None:
+            r = self._apply(real, args, at)
+            if r is not None:
+                return r
+            if isinstance(real, ast.Attribute):
+                fn = real
+        call = ast.Call(func=copy.deepcopy(fn), args=args, keywords=[])
+        return self._simplify_call(call)
+
+    def _simplify_call(self, n: ast.Call) -> ast.AST:
+        fn = n.func
+        # getattr(X, "a")
+        if isinstance(fn, ast.Name) and fn.id == "getattr" and len(n.args) == 2 and not n.keywords:
+            ok, name = const_eval(n.args[1])
+            if not ok and isinstance(n.args[1], ast.Name):
+                g = self._local(n.args[1].id) or self._global(n.args[1].id)
+                if g is not None:
+                    ok, name = const_eval(g)
+            if ok and isinstance(name, str) and name.isidentifier():
+                self.changed = True
+                return ast.copy_location(ast.Attribute(value=n.args[0], attr=name, ctx=ast.Load()), n)
+        # next((r for t, r in TABLE if <test on t>), default)  ->  r1 if <test on t1> else (r2 if <test on t2> else default)
+        if isinstance(fn, ast.Name) and fn.id == "next" and len(n.args) == 2 and not n.keywords and isinstance(n.args[0], ast.GeneratorExp) \
+                and len(n.args[0].generators) == 1 and n.args[0].generators[0].ifs and "next" not in self.bound:
+            g0 = n.args[0].generators[0]
+            table = self._table(g0.iter)
+            names = [x.id for x in ast.walk(g0.target) if isinstance(x, ast.Name)]
+            if table is not None and all(self.comp_bound.get(x) == 1 for x in names):
+                insts = self._instances(g0.target, table, [n.args[0].elt] + list(g0.ifs))
+                if insts is not None:
+                    self.changed = True
+                    res = n.args[1]
+                    for inst in reversed(insts):
+                        test = inst[1] if len(inst) == 2 else ast.BoolOp(op=ast.And(), values=inst[1:])
+                        ok, val = const_eval(test)
+                        if ok:
+                            res = inst[0] if val else res
+                        else:
+                            res = ast.IfExp(test=test, body=inst[0], orelse=res)
+                    return self.visit(ast.fix_missing_locations(_relocate(res, n)))
+        # operator.getitem(a, b) -> a[b];  Rec(*x) -> Rec(x[0], x[1], ..);  partial(F, a, k=v)(b) -> F(a, b, k=v)
+        if _last_name(fn) == "getitem" and len(n.args) == 2 and not n.keywords and "getitem" not in self.bound \
+                and not any(isinstance(x, ast.Starred) for x in n.args) and (isinstance(fn, ast.Name) or _last_name(fn.value) == "operator"):
+            self.changed = True
+            return ast.copy_location(ast.Subscript(value=n.args[0], slice=n.args[1], ctx=ast.Load()), n)
+        recs = record_fields(self.repo)
+        if isinstance(fn, ast.Name) and fn.id in recs and fn.id not in self.bound and len(n.args) == 1 and isinstance(n.args[0], ast.Starred) and not n.keywords:
+            self.changed = True
+            src = n.args[0].value
+            n.args = [ast.Subscript(value=copy.deepcopy(src), slice=ast.Constant(value=i), ctx=ast.Load()) for i in range(len(recs[fn.id]))]
+            return ast.fix_missing_locations(_relocate(n, n))
+        real = self._callable_expr(fn) if isinstance(fn, ast.Name) else fn
+        if isinstance(real, ast.Call) and _last_name(real.func) == "partial" and real.args and not any(isinstance(x, ast.Starred) for x in real.args) \
+                and all(k.arg is not None for k in real.keywords):
+            self.changed = True
+            new = ast.Call(func=copy.deepcopy(real.args[0]), args=[copy.deepcopy(x) for x in real.args[1:]] + list(n.args),
+                           keywords=[copy.deepcopy(k) for k in real.keywords] + list(n.keywords))
+            return self._simplify_call(ast.fix_missing_locations(_relocate(new, n)))
+        # calls of lambdas / operator callables (directly, or through a name bound once)
+        if not n.keywords:
+            real = fn
+            if isinstance(fn, ast.Name):
+                real = self._callable_expr(fn)
+            if isinstance(real, ast.IfExp) and not any(isinstance(x, ast.Starred) for x in n.args):
+                # (A if c else B)(args) -> A(args) if c else B(args)
+                self.changed = True
+                new = ast.IfExp(test=copy.deepcopy(real.test),
+                                body=self._call_of(copy.deepcopy(real.body), [copy.deepcopy(x) for x in n.args], n),
+                                orelse=self._call_of(copy.deepcopy(real.orelse), [copy.deepcopy(x) for x in n.args], n))
+                return ast.fix_missing_locations(_relocate(new, n))
+            if isinstance(real, ast.Lambda) or (isinstance(real, ast.Call) and _last_name(real.func) in OPERATOR_FACTORIES):
+                r = self._apply(real, list(n.args), n)
+                if r is not None:
+                    self.changed = True
+                    return ast.fix_missing_locations(_relocate(r, n))
+            elif isinstance(fn, ast.Name) and isinstance(real, ast.Attribute):
+                self.changed = True
+                n.func = _relocate(copy.deepcopy(real), n)
+                return n
+        # Cls.method(obj, ..)
+        if isinstance(fn, ast.Attribute) and isinstance(fn.value, ast.Name) and fn.value.id in self.repo.classes and fn.value.id not in self.bound \
+                and n.args and not isinstance(n.args[0], ast.Starred):
+            ci = self.repo.classes[fn.value.id]
+            meth = None
+            for c in self.repo.mro(fn.value.id):
+                if c in self.repo.classes and fn.attr in self.repo.classes[c].methods:
+                    meth = self.repo.classes[c]
+                    break
+            if meth is not None and fn.attr not in meth.static and not _is_classmethod(meth.methods[fn.attr]):
+                self.changed = True
+                n.func = ast.copy_location(ast.Attribute(value=n.args[0], attr=fn.attr, ctx=ast.Load()), fn)
+                n.args = list(n.args[1:])
+                return n
+        # chain.from_iterable((a, b)) -> chain(a, b)
+        if isinstance(fn, ast.Attribute) and fn.attr == "from_iterable" and len(n.args) == 1 and not n.keywords \
+                and isinstance(n.args[0], (ast.Tuple, ast.List)) and not any(isinstance(x, ast.Starred) for x in n.args[0].elts):
+            self.changed = True
+            return ast.copy_location(ast.Call(func=fn.value, args=list(n.args[0].elts), keywords=[]), n)
+        # map / filter / starmap
+        name = _last_name(fn)
+        if name in ("map", "filter", "starmap") and not n.keywords and len(n.args) >= 2 and not any(isinstance(x, ast.Starred) for x in n.args) \
+                and name not in self.bound:
+            gen = self._lazy(name, n.args[0], list(n.args[1:]), n)
+            if gen is not None:
+                self.changed = True
+                return gen
+        return n
+
+    def _lazy(self, kind: str, fn: ast.AST, its: List[ast.AST], at: ast.AST) -> Optional[ast.AST]:
+        load = lambda s: ast.Name(id=s, ctx=ast.Load())
+        store = lambda s: ast.Name(id=s, ctx=ast.Store())
+        if kind == "filter":
+            if len(its) != 1:
+                return None
+            v_ = self.fresh()
+            self.comp_bound[v_] = 1
+            test = load(v_) if isinstance(fn, ast.Constant) and fn.value is None else self._call_of(fn, [load(v_)], at)
+            gen = ast.GeneratorExp(elt=load(v_), generators=[ast.comprehension(target=store(v_), iter=its[0], ifs=[test], is_async=0)])
+        elif kind == "starmap":
+            if len(its) != 1:
+                return None
+            real = self._callable_expr(fn) if isinstance(fn, ast.Name) else fn
+            if not isinstance(real, ast.Lambda) or real.args.vararg or real.args.kwarg or real.args.kwonlyargs:
+                return None
+            names = [self.fresh() for _ in real.args.args]
+            for x in names:
+                self.comp_bound[x] = 1
+            elt = self._call_of(real, [load(x) for x in names], at)
+            gen = ast.GeneratorExp(elt=elt, generators=[ast.comprehension(target=ast.Tuple(elts=[store(x) for x in names], ctx=ast.Store()),
+                                                                          iter=its[0], ifs=[], is_async=0)])
+        else:
+            names = [self.fresh() for _ in its]
+            for x in names:
+                self.comp_bound[x] = 1
+            elt = self._call_of(fn, [load(x) for x in names], at)
+            if len(its) == 1:
+                tgt, it = store(names[0]), its[0]
+            else:
+                tgt = ast.Tuple(elts=[store(x) for x in names], ctx=ast.Store())
+                it = ast.Call(func=load("zip"), args=its, keywords=[])
+            gen = ast.GeneratorExp(elt=elt, generators=[ast.comprehension(target=tgt, iter=it, ifs=[], is_async=0)])
+        return ast.fix_missing_locations(ast.copy_location(gen, at))
+
+    def visit_Call(self, n):
+        self.generic_visit(n)
+        return self._simplify_call(n)
+
+    # ---------------------------------------------------------------- statements
+    def _as_loops(self, comp: ast.AST, at: ast.stmt) -> ast.stmt:
+        """`E for x in IT if C ..` evaluated for its effects only -> for x in IT: if C: E"""
+        body: List[ast.stmt] = [ast.Expr(value=comp.elt)]
+        for g_ in reversed(comp.generators):
+            if g_.ifs:
+                test = g_.ifs[0] if len(g_.ifs) == 1 else ast.BoolOp(op=ast.And(), values=list(g_.ifs))
+                body = [ast.If(test=test, body=body, orelse=[])]
+            body = [ast.For(target=g_.target, iter=g_.iter, body=body, orelse=[], lineno=at.lineno)]
+            for x in ast.walk(g_.target):
+                if isinstance(x, ast.Name):
+                    self.bound[x.id] = self.bound.get(x.id, 0) + 1      # now a local of the function
+                    self.comp_bound.pop(x.id, None)
+        for x in ast.walk(body[0]):
+            if hasattr(at, "lineno") and not hasattr(x, "lineno"):
+                ast.copy_location(x, at)
+        return ast.fix_missing_locations(ast.copy_location(body[0], at))
+
+    def _exhausted(self, e: ast.AST) -> Optional[ast.AST]:
+        """the comprehension that the expression runs to the end without looking at the results (as a statement)"""
+        lazy = (ast.GeneratorExp, ast.ListComp, ast.SetComp)
+        if isinstance(e, (ast.ListComp, ast.SetComp)):
+            return e
+        if isinstance(e, ast.Call) and len(e.args) == 1 and isinstance(e.args[0], lazy) and not any(g_.is_async for g_ in e.args[0].generators):
+            name = _last_name(e.func)
+            if name in ("list", "set", "tuple", "frozenset") and not e.keywords and name not in self.bound:
+                return e.args[0]
+            if name == "deque" and len(e.keywords) == 1 and e.keywords[0].arg == "maxlen" and const_eval(e.keywords[0].value) == (True, 0):
+                return e.args[0]
+        return None
+
+    def visit_Assign(self, st):
+        self.generic_visit(st)
+        if len(st.targets) == 1 and isinstance(st.targets[0], ast.Name) and st.targets[0].id in self.local_once:
+            self.local_once[st.targets[0].id] = st.value         # the desugared value
+        return st
+
+    def visit_AnnAssign(self, st):
+        self.generic_visit(st)
+        if isinstance(st.target, ast.Name) and st.target.id in self.local_once and st.value is not None:
+            self.local_once[st.target.id] = st.value
+        return st
+
+    def visit_Expr(self, st):
+        self.generic_visit(st)
+        c = st.value
+        # setattr(X, "a", V)  ->  X.a = V
+        if isinstance(c, ast.Call) and isinstance(c.func, ast.Name) and c.func.id == "setattr" and len(c.args) == 3 and not c.keywords:
+            ok, name = const_eval(c.args[1])
+            if ok and isinstance(name, str) and name.isidentifier():
+                self.changed = True
+                tgt = ast.Attribute(value=c.args[0], attr=name, ctx=ast.Store())
+                return ast.fix_missing_locations(ast.copy_location(ast.Assign(targets=[ast.copy_location(tgt, c)], value=c.args[2], lineno=st.lineno), st))
+        if isinstance(c, ast.YieldFrom) and isinstance(c.value, ast.IfExp):
+            self.changed = True         # yield from (A if c else B)
+            mk = lambda x: ast.copy_location(ast.Expr(value=ast.copy_location(ast.YieldFrom(value=x), c)), st)
+            new = ast.If(test=c.value.test, body=[mk(c.value.body)], orelse=[mk(c.value.orelse)])
+            return self.visit(ast.fix_missing_locations(ast.copy_location(new, st)))
+        if isinstance(c, ast.YieldFrom) and isinstance(c.value, (ast.Tuple, ast.List)) and not any(isinstance(x, ast.Starred) for x in c.value.elts):
+            self.changed = True         # yield from (a, b)  ->  yield a; yield b
+            out = [ast.fix_missing_locations(ast.copy_location(ast.Expr(value=ast.copy_location(ast.Yield(value=x), c)), st)) for x in c.value.elts]
+            return out or [ast.copy_location(ast.Pass(), st)]
+        if isinstance(c, ast.IfExp):
+            self.changed = True         # A(..) if c else B(..) evaluated for its effects
+            new = ast.If(test=c.test, body=[ast.copy_location(ast.Expr(value=c.body), st)], orelse=[ast.copy_location(ast.Expr(value=c.orelse), st)])
+            return self.visit(ast.fix_missing_locations(ast.copy_location(new, st)))
+        comp = self._exhausted(c)
+        if comp is not None and not isinstance(comp.elt, ast.Starred):
+            self.changed = True
+            return self.visit(self._as_loops(comp, st))
+        return st
+
+    # ---------------------------------------------------------------- loops / comprehensions over constant tables
+    def _instances(self, target: ast.AST, table: List[ast.AST], parts: List[ast.AST]) -> Optional[List[List[ast.AST]]]:
+        """for every entry of the table the copies of `parts` with the loop variable(s) replaced by the entry"""
+        out = []
+        for entry in table:
+            b = self._bindings(target, entry)
+            if b is None:
+                return None
+            inst = []
+            for part in parts:
+                new = _Subst(b).visit(copy.deepcopy(part))
+                new = _FoldTests().visit(new)
+                inst.append(new)
+            flat = [y for x in inst for y in (x if isinstance(x, list) else [x])]
+            if _undecided_test_on_subst(flat):
+                return None
+            out.append(inst)
+        return out
+
+    def visit_For(self, n):
+        self.generic_visit(n)
+        if isinstance(n.iter, ast.GeneratorExp) and not n.orelse and all(isinstance(s, ast.Pass) for s in n.body) \
+                and all(isinstance(x, (ast.Name, ast.Tuple, ast.expr_context)) for x in ast.walk(n.target)):
+            self.changed = True         # for _ in (E for ..): pass
+            return self.visit(self._as_loops(n.iter, n))
+        table = self._table(n.iter)
+        if table is None or n.orelse or _own_jumps(n.body, (ast.Break,)):
+            return n
+        names = [x.id for x in ast.walk(n.target) if isinstance(x, ast.Name)]
+        if any(self.bound.get(x) != 1 or x in self.comp_bound for x in names) or not _simple_target(n.target):
+            return n
+        insts = self._instances(n.target, table, list(n.body))
+        if insts is None:
+            return n
+        straight = []
+        for inst in insts:
+            flat = _without_continue([y for s in inst for y in (s if isinstance(s, list) else [s])], [])
+            if flat is None:
+                return n
+            straight.append(flat)
+        self.changed = True
+        out: List[ast.stmt] = []
+        for entry, flat in zip(table, straight):
+            out.append(ast.copy_location(ast.Assign(targets=[copy.deepcopy(n.target)], value=_relocate(copy.deepcopy(entry), n), lineno=n.lineno), n))
+            for y in flat:
+                r = self.visit(y)
+                out.extend(r if isinstance(r, list) else [r])
+        for x in names:
+            self.bound[x] = self.bound.get(x, 0) + len(table)
+        for s in n.body:                # what the body binds is now bound once per entry
+            for x in ast.walk(s):
+                if isinstance(x, ast.Name) and isinstance(x.ctx, ast.Store):
+                    self.local_once.pop(x.id, None)
+        return out
+
+    def _unroll_comp(self, n):
+        g0 = n.generators[0]
+        table = self._table(g0.iter)
+        if table is None or g0.is_async:
+            return n
+        names = [x.id for x in ast.walk(g0.target) if isinstance(x, ast.Name)]
+        if any(self.comp_bound.get(x) != 1 for x in names):
+            return n
+        rest = n.generators[1:]
+        if isinstance(n, ast.DictComp):
+            parts = [n.key, n.value] + list(g0.ifs) + list(rest)
+        else:
+            parts = [n.elt] + list(g0.ifs) + list(rest)
+        nhead = 2 if isinstance(n, ast.DictComp) else 1
+        insts = self._instances(g0.target, table, parts)
+        if insts is None:
+            return n
+        pieces = []
+        for inst in insts:
+            head, ifs, gens = inst[:nhead], inst[nhead:nhead + len(g0.ifs)], inst[nhead + len(g0.ifs):]
+            keep = True
+            for t in ifs:
+                ok, val = const_eval(t)
+                if not ok:
+                    return n
+                keep = keep and bool(val)
+            if keep:
+                pieces.append((head, gens))
+        self.changed = True
+        if not rest:
+            if isinstance(n, ast.DictComp):
+                new = ast.Dict(keys=[h[0] for h, _ in pieces], values=[h[1] for h, _ in pieces])
+            elif isinstance(n, ast.SetComp) and pieces:
+                new = ast.Set(elts=[h[0] for h, _ in pieces])
+            elif isinstance(n, ast.ListComp):
+                new = ast.List(elts=[h[0] for h, _ in pieces], ctx=ast.Load())
+            else:
+                new = ast.Tuple(elts=[h[0] for h, _ in pieces], ctx=ast.Load())
+                if isinstance(n, ast.SetComp):
+                    new = ast.Call(func=ast.Name(id="set", ctx=ast.Load()), args=[new], keywords=[])
+            return self.visit(ast.fix_missing_locations(ast.copy_location(new, n)))
+        # more generators: the chain of one comprehension per entry
+        if isinstance(n, ast.DictComp):
+            subs = [ast.DictComp(key=h[0], value=h[1], generators=gens) for h, gens in pieces]
+            new = ast.Dict(keys=[None] * len(subs), values=subs)
+        else:
+            subs = [ast.GeneratorExp(elt=h[0], generators=gens) for h, gens in pieces]
+            new = ast.Call(func=ast.Name(id="chain", ctx=ast.Load()), args=subs, keywords=[])
+            if isinstance(n, ast.ListComp):
+                new = ast.Call(func=ast.Name(id="list", ctx=ast.Load()), args=[new], keywords=[])
+            elif isinstance(n, ast.SetComp):
+                new = ast.Call(func=ast.Name(id="set", ctx=ast.Load()), args=[new], keywords=[])
+        new = ast.fix_missing_locations(ast.copy_location(new, n))
+        for s in subs:
+            self.generic_visit(s)
+        return new
+
+    def visit_ListComp(self, n):
+        self.comp_scope.append({x.id for g_ in n.generators for x in ast.walk(g_.target) if isinstance(x, ast.Name)})
+        try:
+            self.generic_visit(n)
+        finally:
+            self.comp_scope.pop()
+        return self._unroll_comp(n)
+
+    visit_GeneratorExp = visit_DictComp = visit_ListComp
+
+    def visit_SetComp(self, n):
+        r = self.visit_ListComp(n)
+        if self.final and isinstance(r, ast.SetComp) and "set" not in self.bound:
+            self.changed = True
+            gen = ast.copy_location(ast.GeneratorExp(elt=r.elt, generators=r.generators), r)
+            r = ast.copy_location(ast.Call(func=ast.copy_location(ast.Name(id="set", ctx=ast.Load()), r), args=[gen], keywords=[]), r)
+        return r
+
+    def visit_Set(self, n):
+        self.generic_visit(n)
+        if not self.final or "set" in self.bound or any(isinstance(x, ast.Starred) for x in n.elts):
+            return n
+        self.changed = True
+        tup = ast.copy_location(ast.Tuple(elts=n.elts, ctx=ast.Load()), n)
+        return ast.copy_location(ast.Call(func=ast.copy_location(ast.Name(id="set", ctx=ast.Load()), n), args=[tup], keywords=[]), n)
+
+
+def _last_name(e: ast.AST) -> Optional[str]:
+    if isinstance(e, ast.Name):
+        return e.id
+    if isinstance(e, ast.Attribute):
+        return e.attr
+    return None
+
+
+def _simple_target(t: ast.AST) -> bool:
+    return isinstance(t, ast.Name) or (isinstance(t, (ast.Tuple, ast.List)) and all(_simple_target(x) for x in t.elts))
+
+
+def _is_classmethod(fn: ast.FunctionDef) -> bool:
+    return any(isinstance(d, ast.Name) and d.id in ("classmethod", "staticmethod") for d in fn.decorator_list)
+
+
+_desugared: Dict[tuple, tuple] = {}
+
+
+def _desugar(repo: Repo, f: FuncInfo, final: bool = False) -> FuncInfo:
+    k = (id(f.node), final)
     if k in _desugared:
-        return _desugared[k]
+        return _desugared[k][1]
     out = f
-    if any(isinstance(n, ast.Lambda) for n in ast.walk(f.node)):
-        import copy
-        node = copy.deepcopy(f.node)
-        t = _MapLambda()
-        node = t.visit(node)
-        if t.changed:
-            ast.fix_missing_locations(node)
-            out = FuncInfo(f.mod, f.cls, node, static=f.static)
-            out.qn = f.qn
-            for attr in ("flat_of", "inlined"):
-                if hasattr(f, attr):
-                    setattr(out, attr, getattr(f, attr))
-    _desugared[k] = out
+    node = copy.deepcopy(f.node)
+    probe = FuncInfo(f.mod, f.cls, node, static=f.static)
+    probe.inlined = getattr(f, "inlined", [])
+    t = _Desugar(repo, probe, final)
+    node = t.visit(node)
+    if t.changed:
+        ast.fix_missing_locations(node)
+        out = FuncInfo(f.mod, f.cls, node, static=f.static)
+        out.qn = f.qn
+        for attr in ("flat_of", "inlined", "inlined_bodies"):
+            if hasattr(f, attr):
+                setattr(out, attr, getattr(f, attr))
+    _desugared[k] = (f, out)            # keeps f alive: id(f.node) stays unique
     return out
+
+
+# --------------------------------------------------------------------------- records and intermediate containers
+def record_fields(repo: Repo) -> Dict[str, List[str]]:
+    """classes of the repository that are plain records (NamedTuple / dataclass / namedtuple(..)): name -> field names in order"""
+    cache = repo.__dict__.setdefault("_c18_records", None)
+    if cache is not None:
+        return cache
+    out: Dict[str, List[str]] = {}
+    for name, ci in repo.classes.items():
+        deco = {_last_name(d.func if isinstance(d, ast.Call) else d) for d in ci.node.decorator_list}
+        if any(b.split(".")[-1] == "NamedTuple" for b in ci.bases) or "dataclass" in deco:
+            flds = [b.target.id for b in ci.node.body if isinstance(b, ast.AnnAssign) and isinstance(b.target, ast.Name)]
+            if flds and "__init__" not in ci.methods and "__new__" not in ci.methods:
+                out[name] = flds
+    for m in repo.mods.values():
+        for name, d in m.defs.items():
+            if d[0] == "const" and isinstance(d[1], ast.Call) and _last_name(d[1].func) == "namedtuple" and len(d[1].args) >= 2:
+                ok, flds = const_eval(d[1].args[1])
+                if ok and isinstance(flds, str):
+                    flds = flds.replace(",", " ").split()
+                if ok and flds and all(isinstance(x, str) for x in flds):
+                    out[name] = list(flds)
+    repo.__dict__["_c18_records"] = out
+    return out
+
+
+_CONTAINER_FNS = ("list", "tuple", "iter", "dict", "OrderedDict", "deque", "copy", "deepcopy", "sorted", "reversed", "set", "frozenset")
+
+
+def cancel_path(p: Path, records: Dict[str, List[str]]) -> Optional[Path]:
+    """A value that is put into a slot of a tuple / record, or into an intermediate container, and taken out again is the value
+    itself:  (X, 'in:0', 'in:elt', 'elem', 'unpack:0') -> X;  (X, 'kw:name:Rec', .., 'attr:name') -> X;  (X, 'in:key', 'call:items',
+    'elem', 'unpack:0') -> X.  Steps that convert the container in between (list / sorted / set ..) stay on the path.  None when
+    the selection takes ANOTHER slot than the one the value was put into (the path denotes nothing)."""
+    out: List[Optional[str]] = []
+    stack: List[list] = []          # [kind, slot, position of the construct step, position of a view step or None]
+
+    def kill(ent):
+        out[ent[2]] = None
+        if ent[3] is not None:
+            out[ent[3]] = None
+
+    for s in p:
+        kind = slot = None
+        if s.startswith("in:"):
+            t = s[3:]
+            if t.isdigit():
+                kind, slot = "slot", int(t)
+            elif t == "key" or t.startswith("setkey@"):
+                kind = "key"
+            elif t == "value" or t.startswith("setval@"):
+                kind = "val"
+            elif t == "elt" or t.split("@")[0] in ("append", "add", "appendleft", "insert"):
+                kind = "elt"
+        elif s.startswith(("arg", "kw:")) and s.rsplit(":", 1)[-1] in records:
+            flds = records[s.rsplit(":", 1)[-1]]
+            if s.startswith("kw:"):
+                name = s.split(":")[1]
+                if name in flds:
+                    kind, slot = "slot", flds.index(name)
+            elif s[3:].split(":")[0].isdigit() and int(s[3:].split(":")[0]) < len(flds):
+                kind, slot = "slot", int(s[3:].split(":")[0])
+        if kind is not None:
+            stack.append([kind, slot, len(out), None])
+            out.append(s)
+            continue
+        top = stack[-1] if stack else None
+        if top is None:
+            out.append(s)
+            continue
+        sel = None
+        if s.startswith(("unpack:", "item:")) and s.split(":", 1)[1].isdigit():
+            sel = int(s.split(":", 1)[1])
+        elif s.startswith("attr:") and top[0] == "slot" and isinstance(top[1], int):
+            owner = [flds for flds in records.values() if s[5:] in flds]
+            if owner:
+                sel = owner[0].index(s[5:])
+        if sel is not None:
+            if top[0] == "slot":
+                if top[1] != sel:
+                    return None
+                kill(top)
+                stack.pop()
+                continue
+            stack.clear()
+            out.append(s)
+            continue
+        if s == "elem":
+            view = out[top[3]][5:] if top[3] is not None else None
+            if top[0] in ("elt", "slot"):
+                kill(top)
+                stack.pop()
+                continue
+            if top[0] == "key" and view in (None, "keys"):
+                kill(top)
+                stack.pop()
+                continue
+            if top[0] == "val" and view == "values":
+                kill(top)
+                stack.pop()
+                continue
+            if view == "items":
+                top[0], top[1] = "slot", (0 if top[0] == "key" else 1)      # the (key, value) pair of the items view
+                continue
+            return None
+        if s == "item" and top[0] in ("val", "elt"):
+            kill(top)
+            stack.pop()
+            continue
+        if s in ("call:items", "call:keys", "call:values") and top[0] in ("key", "val") and top[3] is None:
+            top[3] = len(out)
+            out.append(s)
+            continue
+        if s in ORDER_PASS or (s.startswith("arg0:") and s[5:] in _CONTAINER_FNS):
+            out.append(s)
+            continue
+        stack.clear()               # anything else: the value is used / handed to something that is not understood as a container
+        out.append(s)
+    return tuple(x for x in out if x is not None)
+
+
+def cancel_paths(paths: Iterable[Path], records: Dict[str, List[str]]) -> Set[Path]:
+    res: Set[Path] = set()
+    for p in paths:
+        if not any(x.startswith(("in:", "arg", "kw:")) for x in p):
+            res.add(p)
+            continue
+        q = cancel_path(p, records)
+        if q is not None:
+            res.add(q)
+    return res
 
 
 class View:
     def __init__(self, repo: Repo, f: FuncInfo):
         self.repo, self.f = repo, f
+        self.records = record_fields(repo)
         self.p = L.prov(repo, f)
         self.g = C.cfg_of(f.node)
         self.pm = L.parents_of(f)
         self._alias_names: Dict[Path, Set[str]] = {}
 
     # ---------------------------------------------------------------- identity
-    def trace(self, e: ast.AST, keys: bool = False, under=None) -> Set[Path]:
+    def raw_trace(self, e: ast.AST, keys: bool = False, under=None) -> Set[Path]:
         try:
             return self.p.trace(e, keys=keys, under=under)
         except KeyError:
             return set()
+
+    def trace(self, e: ast.AST, keys: bool = False, under=None) -> Set[Path]:
+        return cancel_paths(self.raw_trace(e, keys=keys, under=under), self.records)
 
     def identity(self, e: ast.AST) -> Set[Path]:
         """the objects the expression may denote (paths without content flows)"""
@@ -154,13 +1098,11 @@ class View:
     def content(self, e: ast.AST, obj: Optional[Path] = None, keys: bool = True, under=None) -> Set[Path]:
         """trace(e) without the paths that read back what this function itself stores into (an alias of) `obj`:
         the flow-insensitive content relation would otherwise make the new content of a container one of its own sources"""
-        tr = self.trace(e, keys=keys, under=under)
-        if obj is None:
-            return tr
-        names = self.alias_names(obj)
-        if not names:
-            return tr
-        return {x for x in tr if not any(s.startswith("in:") and "@" in s and s.split("@", 1)[1] in names for s in x)}
+        tr = self.raw_trace(e, keys=keys, under=under)
+        names = self.alias_names(obj) if obj is not None else ()
+        if names:
+            tr = {x for x in tr if not any(s.startswith("in:") and "@" in s and s.split("@", 1)[1] in names for s in x)}
+        return cancel_paths(tr, self.records)
 
     # ---------------------------------------------------------------- statements / loops
     def node_of(self, n: ast.AST) -> Optional[int]:
@@ -199,6 +1141,20 @@ class Write:
         return f"<{self.kind} {ast.unparse(self.site)[:50]}>"
 
 
+def _paired_targets(t: ast.AST, value: ast.AST):
+    """a.x, a.y = X, Y  ->  (a.x, X), (a.y, Y);  other shapes: every target with the whole value"""
+    if isinstance(t, (ast.Tuple, ast.List)):
+        if isinstance(value, (ast.Tuple, ast.List)) and len(value.elts) == len(t.elts) \
+                and not any(isinstance(x, ast.Starred) for x in list(t.elts) + list(value.elts)):
+            for te, ve in zip(t.elts, value.elts):
+                yield from _paired_targets(te, ve)
+        else:
+            for te in t.elts:
+                yield from _paired_targets(te.value if isinstance(te, ast.Starred) else te, value)
+    else:
+        yield t, value
+
+
 def writes(v: View, obj: Path) -> List[Write]:
     """all writes to the container object `obj` = (<owner path..>, 'attr:<field>'):
        rebind       owner.field = X
@@ -232,12 +1188,13 @@ def writes(v: View, obj: Path) -> List[Write]:
             elif a in ELEM_INSERTERS and args:
                 out.append(Write("insert-elem", n, value=args[-1]))
         elif isinstance(n, (ast.Assign, ast.AnnAssign)) and n.value is not None:
-            for t in (n.targets if isinstance(n, ast.Assign) else [n.target]):
-                if isinstance(t, ast.Subscript) and is_c(t.value):
-                    out.append(Write("insert-item", n, key=t.slice, value=n.value))
-                elif is_field_target(t):
-                    # re-binding to a new empty container = dropping the old content; later writes go to the new object
-                    out.append(Write("clear", n) if _is_empty_literal(n.value) else Write("rebind", n, value=n.value))
+            for t0 in (n.targets if isinstance(n, ast.Assign) else [n.target]):
+                for t, val in _paired_targets(t0, n.value):
+                    if isinstance(t, ast.Subscript) and is_c(t.value):
+                        out.append(Write("insert-item", n, key=t.slice, value=val))
+                    elif is_field_target(t):
+                        # re-binding to a new empty container = dropping the old content; later writes go to the new object
+                        out.append(Write("clear", n) if _is_empty_literal(val) else Write("rebind", n, value=val))
         elif isinstance(n, ast.AugAssign) and isinstance(n.op, (ast.BitOr, ast.Add)):
             t = n.target
             if is_field_target(t) or (isinstance(t, ast.Name) and t.id in v.alias_names(obj)):
@@ -283,12 +1240,21 @@ def _filtered_site(v: View, site: ast.AST, value: Optional[ast.AST]) -> Optional
     return None
 
 
-def filtered(v: View, site: ast.AST, value: Optional[ast.AST] = None) -> Optional[str]:
+def filtered(v: View, site: ast.AST, value: Optional[ast.AST] = None, _depth: int = 0) -> Optional[str]:
     """why the insertion at `site` (inserting `value`: an element, a comprehension, or a local container that is filled elsewhere)
     does not happen for every element; None when it does"""
     why = _filtered_site(v, site, value)
-    if why or value is None:
+    if why:
         return why
+    if _depth < 3:
+        # the iterables of the enclosing loops: for x in (y for y in ys if c) / for x in filtered_list
+        for lp in v.ancestors(site):
+            if isinstance(lp, ast.For) and lp.iter is not value:
+                why = filtered(v, lp, lp.iter, _depth + 1)
+                if why:
+                    return why
+    if value is None:
+        return None
     locals_ = {n.id for n in ast.walk(value) if isinstance(n, ast.Name) and isinstance(n.ctx, ast.Load)} - set(v.f.params)
     if not locals_:
         return None
